@@ -13,9 +13,12 @@ JOINS = ["union", "pseudo_join", "least_upper_bound", "widen"]
 MEETS = ["intersection", "_multi_valued_intersection"]
 QUERIES = ["eval1", "eval2", "eval4", "min", "max", "cardinality", "solution"]
 FUNCTIONS = [f"StridedInterval.{n}" for n in JOINS + MEETS + ["eval", "min", "max", "cardinality", "solution", "complement"]]
-TRUSTED = ["z3 4.13", "CPython 3.12", "contract of math.gcd/lcm", "contract of _minimal_common_integer_splitted (checked bounded)"]
+TRUSTED = ["z3 4.13", "CPython 3.12", "contract of math.gcd/lcm", "contract of _minimal_common_integer_splitted (rational Diophantine solver; checked bounded: exhaustively up to width 4, directed random at 16..64 bits)"]
 ASSUMPTIONS = ["widths 1-4 (quick 1-3); each width complete in values", "non-reversed, initialised, non-empty operands"]
 R = "vf.contracts.si:replay_c22"
+RULE = ("bounded helper check (never counted as proved): the assumed contract of _minimal_common_integer_splitted against brute force for every pair of "
+        "non-wrapping intervals up to the stated width, and against an exact scan for directed random pairs at 16..64 bits with bounds near 2^w; "
+        "nontrivial = both non-constant")
 
 
 def _unsound():
@@ -38,4 +41,10 @@ def _tasks(tier, seed=0):
             out.append(task(M, "ob_meet", f"si.{op}/gamma@w{w}", ["C22"], replay=R, op=op, w=w, tier=tier))
         for q in QUERIES:
             out.append(task(M, "ob_query", f"si.{q}/exact@w{w}", ["C22"], replay=R, q=q, w=w, tier=tier))
+    # the assumed contract of the Diophantine helper, bounded: exhaustively at small widths (also run by C21) and directed-random at 16..64 bits
+    out.append(task("vf.bounded.si_enum", "mci", "si._minimal_common_integer_splitted/contract-bounded", ["C21", "C22"], kind="bounded",
+                    replay="vf.bounded.si_enum:replay_mci", wmax=4 if tier == "quick" else 5, budget_s=100 if tier == "quick" else 1500))
+    for i in range(4 if tier == "quick" else 16):
+        out.append(task("vf.bounded.si_enum", "mci_wide", f"si._minimal_common_integer_splitted/contract-bounded-wide#{i}", ["C22"], kind="bounded",
+                        replay="vf.bounded.si_enum:replay_mci_wide", seed=seed * 100 + i, n=3000 if tier == "quick" else 30000, budget_s=60 if tier == "quick" else 600))
     return out
